@@ -151,6 +151,48 @@ func (ex *Exec) callCommon(st *State, instr ssa.CallInstruction, c *ssa.CallComm
 		ex.callAsserts(st, rec, "before")
 	}
 	con := ex.P.Contracts[key]
+	// interior pointers (address of a field / element) passed to a contracted callee: copy-in / copy-out
+	// through a fresh cell, so that the callee's `*p` clauses talk about the caller's location. (Assumes the
+	// callee reaches that location only through p.)
+	type copyBack struct {
+		ad  *Addr
+		tmp *Addr
+	}
+	var copies []copyBack
+	if con != nil && !con.Pure && !ex.pureMode {
+		for i, a := range argVals {
+			ad, ok := ex.addrs[a]
+			if !ok || ad.kind == akLocal {
+				continue
+			}
+			if ad.kind == akCell && len(ad.path) == 0 {
+				continue
+			}
+			pt, isPtr := a.Type().Underlying().(*types.Pointer)
+			if !isPtr {
+				continue
+			}
+			elem := pt.Elem()
+			if _, isArr := elem.Underlying().(*types.Array); isArr {
+				continue
+			}
+			r := ex.newRef(st, "argcell")
+			var tmp *Addr
+			if _, isSt := elem.Underlying().(*types.Struct); isSt {
+				tmp = &Addr{kind: akField, comp: "", base: r, rootT: elem, ty: elem}
+			} else {
+				tmp = &Addr{kind: akCell, comp: g.cellComp(elem), base: r, rootT: elem, ty: elem}
+			}
+			ex.store(st, tmp, ex.load(st, ad))
+			args[i] = r
+			copies = append(copies, copyBack{ad, tmp})
+			g.note("address of a field/element passed to " + shortKey(key) + ": modelled by copy-in/copy-out (the callee is assumed to reach that location only through the pointer)")
+		}
+		rec.args = args
+		if len(copies) > 0 {
+			rec.pre = st.clone()
+		}
+	}
 	if con != nil && ex.c != nil && len(ex.c.OnlyContracts) > 0 && !con.Pure {
 		keep := false
 		for _, n := range ex.c.OnlyContracts {
@@ -217,6 +259,9 @@ func (ex *Exec) callCommon(st *State, instr ssa.CallInstruction, c *ssa.CallComm
 		}
 		ex.havocEverything(st)
 		ex.havocEscapedAddrs(st, argVals)
+	}
+	for _, cb := range copies {
+		ex.store(st, cb.ad, ex.load(st, cb.tmp))
 	}
 	if !ex.pureMode && !ex.havockedAllAt(rec, st) {
 		// a callee that receives function values may call them: their effects are the caller's business
